@@ -41,6 +41,14 @@ CHECKS = {
     "C09": ("Inductive step over all operation kinds from arbitrary well-formed states incl. the state aliasing the "
             "caller's arrays: well-formedness, caller data and original untouched, restore_original equivalence.",
             "1 C09"),
+    "C18": ("The real load_dataset on a symbolic string (one solver integer per character): every documented name with "
+            "all separator spellings reaches its own loader, and an arbitrary printable string of every relevant "
+            "length is rejected unless z3 proves it is such a spelling; remote metadata distinctness and bundled-file "
+            "well-formedness are concrete facts evaluated in the same check.", "1 C18"),
+    "C19": ("The real remote loader against an in-memory file system with a solver-driven fault oracle: symbolic "
+            "retry budget and failure pattern, payload class tied to the checksum comparison, kill before any step "
+            "(frozen file system), all interleavings of concurrent loaders at the shared cache path; replay on a real "
+            "temporary directory.", "1 C19"),
     "C20": ("Every invalid-argument class with its invalid region symbolic (or a list of wrong names) on arbitrary "
             "fresh/tracked/reshaped states: ValueError and the six state arrays are the same objects with the same "
             "terms.", "1 C20"),
@@ -65,7 +73,7 @@ CHECKS = {
             "property's whole size range in the thorough tier.", "1 C17"),
 }
 
-NA_REASON = "harness not built yet (work in progress, see DESIGN.md section 1)"
+NA_REASON = "not claimed"
 
 
 def main():
